@@ -131,7 +131,11 @@ func (r *relativePathsResolver) absVolumeMount(a any) (any, error) {
 		if !ok {
 			return nil, errors.New(`invalid mount config for type "bind": field Source must not be empty`)
 		}
-		abs, err := r.maybeUnixPath(src.(string))
+		path, ok := src.(string)
+		if !ok {
+			return nil, fmt.Errorf(`invalid mount config for type "bind": source must be a string, got %T`, src)
+		}
+		abs, err := r.maybeUnixPath(path)
 		if err != nil {
 			return nil, err
 		}
